@@ -130,7 +130,20 @@ def env_name(pt):
     return "VT_E%d%d%d%d" % pt
 
 
-def build_spec(idx, rc, tag, ident_kind="dns"):
+def plant(cert_cfg, pre):
+    """Step: files that exist before the daemon's first write - 'emptykey' (a 0-byte private key, no certificate), 'emptyboth', 'pair' (an expired pair)."""
+    def f(sc):
+        base = os.path.join(sc.world.certs, project.cert_id(cert_cfg))
+        if pre == "pair":
+            flowcheck.install_pair(cert_cfg, "pair")(sc)
+        else:
+            for ext in ((".pk.pem",) if pre == "emptykey" else (".pk.pem", ".crt.pem")):
+                open(base + ext, "w").close()
+                os.chmod(base + ext, 0o600)
+    return f
+
+
+def build_spec(idx, rc, tag, ident_kind="dns", pre="none"):
     """rc: [prof, allow, exit, shape] as printed by TLC (1-based arrays)."""
     hooks = []
     for i in range(3):
@@ -151,10 +164,13 @@ def build_spec(idx, rc, tag, ident_kind="dns"):
     shape = SHAPES[rc["shape"] - 1]
     sp = dict(tag=tag, certs=[cert], attempts=2, hooks=hooks, groups=GROUPS, cert_hooks=shape, account_hooks=["a1"],
               global_opts={"env": genv}, env=penv,
-              meta={"family": "TLC configuration", "rc": rc, "shape": shape,
+              meta={"family": "TLC configuration" if pre == "none" else "TLC configuration, files present before the first write (%s)" % pre, "rc": rc, "shape": shape, "pre": pre,
                     "hooks_conf": {"defs": [{"name": h["name"], "types": h["type"], "allow": bool(h.get("allow_failure", False))} for h in hooks],
                                    "groups": GROUPS, "lists": [{"owner": "cert", "names": shape}, {"owner": "account", "names": ["a1"]}]}})
-    return flowcheck.prepare(sp)
+    sp = flowcheck.prepare(sp)
+    if pre != "none":
+        sp["steps"] = [("call", plant(sp["certs"][0], pre)), ("run", {})]
+    return sp
 
 
 def hooks_layer(x):
@@ -164,7 +180,9 @@ def hooks_layer(x):
     certs_dir = os.path.join(x["world"], "certs")
     acc_dir = os.path.join(x["world"], "accounts")
     ids = ",".join(i["id"].split(":", 1)[1] for i in meta["flow"][cid]["ids"])
-    out = [{"e": "Reset", "defs": meta["hooks_conf"]["defs"], "groups": meta["hooks_conf"]["groups"], "lists": meta["hooks_conf"]["lists"], "present": []}]
+    pre = meta.get("pre", "none")
+    present = [os.path.join(certs_dir, cid + ext) for ext in {"none": (), "emptykey": (".pk.pem",)}.get(pre, (".pk.pem", ".crt.pem"))]
+    out = [{"e": "Reset", "defs": meta["hooks_conf"]["defs"], "groups": meta["hooks_conf"]["groups"], "lists": meta["hooks_conf"]["lists"], "present": present}]
     last_req = {"ok": None, "status": None}
     cur_type = None
     cur_authz = None
@@ -228,6 +246,10 @@ def run(ctx):
     n = 2500 if ctx.tier == "thorough" else 150
     sample = rng.sample(confs, min(n, len(confs)))
     specs = [build_spec(i, rc, "C10/s%04d" % i) for i, rc in enumerate(sample)]
+    # the same kind of configuration with files already there: an existing file is edited, whatever is in it
+    m = 240 if ctx.tier == "thorough" else 18
+    for j, rc in enumerate(rng.sample(confs, min(m, len(confs)))):
+        specs.append(build_spec(len(sample) + j, rc, "C10/p%04d" % j, pre=("emptykey", "pair", "emptyboth")[j % 3]))
     results = flows.run_many(specs, workers=12)
     lines, owner = [], []
     for i, x in enumerate(results):
